@@ -50,7 +50,7 @@ LEVEL_NOTE = ("Crash = Python-level interruption (generator abandoned/closed, ex
 TECHNIQUE = "fault enumeration at every crash point + pull/call counters + audit log of file opens"
 
 SHAPES = ["seq", "source", "two", "acc", "split", "split2", "grow", "first", "last", "adjacent",
-          "bare", "splitbare"]
+          "bare", "splitbare", "tmpl"]
 LATERS = [["run", "run"], ["run", "recompute", "run"], ["drop", "run"], ["hoist", "run"],
           ["recompute", "hoist_recompute", "run"], ["drop2", "run"]]
 
@@ -226,7 +226,7 @@ def ref_output(shape, flow):
     """What a complete, cache-less run yields (pure reference)."""
     vals = copy.deepcopy(flow)
     c = Counters()
-    if shape in ("seq", "source", "split", "hoistseq"):
+    if shape in ("seq", "source", "split", "hoistseq", "tmpl"):
         out = [Down(c)(Up(c)(v)) for v in vals]
     elif shape == "split2":
         # only the branch holding the Cache; the other branch's outputs (current flow)
@@ -284,6 +284,15 @@ class Pipeline(object):
         self.hoisted_type = None
         if shape == "seq":
             seq = lena.core.Sequence(Up(c), C(f1, recompute=recompute), down)
+            self.start = lambda: _D(seq).run(probe)
+            self._seq = seq
+        elif shape == "tmpl":
+            # the file name is a template formatted from the static context
+            import lena.meta
+            self.files = [os.path.join(d, "c_far_1.pkl"), f2]
+            seq = lena.core.Sequence(lena.meta.SetContext("detector", {"name": "far", "id": 1}),
+                                     Up(c), C(os.path.join(d, "c_{{detector.name}}_{{detector.id}}"
+                                                              ".pkl"), recompute=recompute), down)
             self.start = lambda: _D(seq).run(probe)
             self._seq = seq
         elif shape == "source":
@@ -467,7 +476,7 @@ def _run_case(r, obs, d):
         recompute = op in ("recompute", "hoist_recompute")
         hoist = None
         if op == "drop":
-            for fname in ("c1.pkl", "c2.pkl"):
+            for fname in ("c1.pkl", "c2.pkl", "c_far_1.pkl"):
                 cobj = lena.flow.Cache(os.path.join(d, fname))
                 if os.path.exists(os.path.join(d, fname)):
                     cobj.drop_cache()
@@ -583,3 +592,4 @@ def _run_case(r, obs, d):
 RULE += (' Faults are raised both as Exception and as KeyboardInterrupt; flows with None / false bare values.')
 RULE += (' Shapes also include the Cache alone (alter_sequence of a single element) and the Cache '
          'given bare as a branch of a Split.')
+RULE += (' A further shape names the cache file by a template formatted from the static context.')
